@@ -19,10 +19,71 @@ def evalSt {K : Type} [Field K] (st : Stencil) (g : Int → K) : K :=
 def evalLin {K : Type} [Field K] (row : Lin K) : K :=
   (row.map fun ca => ((ca.1 : ℚ) : K) * ca.2).sum
 
+theorem evalSt_nil {K : Type} [Field K] (g : Int → K) : evalSt [] g = 0 := rfl
+
+theorem evalSt_cons {K : Type} [Field K] (kc : Int × Rat) (st : Stencil) (g : Int → K) :
+    evalSt (kc :: st) g = ((kc.2 : ℚ) : K) * g kc.1 + evalSt st g := by
+  simp [evalSt]
+
+theorem moment_nil (j : Nat) : moment [] j = 0 := rfl
+
+theorem moment_cons (kc : Int × Rat) (st : Stencil) (j : Nat) :
+    moment (kc :: st) j = kc.2 * ((kc.1 : Int) : Rat) ^ j + moment st j := by
+  simp [moment]
+
+theorem evalSt_poly {K : Type} [Field K] [CharZero K] (st : Stencil) (n : Nat) (a : Nat → K) (h : K) :
+    evalSt st (fun k => ∑ j ∈ Finset.range n, a j * ((k : K) * h) ^ j)
+      = ∑ j ∈ Finset.range n, a j * h ^ j * ((moment st j : ℚ) : K) := by
+  induction st with
+  | nil => simp [evalSt_nil, moment_nil]
+  | cons kc st ih =>
+    rw [evalSt_cons, ih, Finset.mul_sum, ← Finset.sum_add_distrib]
+    apply Finset.sum_congr rfl
+    intro j _
+    rw [moment_cons]
+    push_cast
+    ring
+
+theorem moments_of_ok (st : Stencil) (p : Nat) (hm : momentsOK st p = true) (j : Nat) (hj : j < p + 1) :
+    moment st j = if j = 1 then 1 else 0 := by
+  unfold momentsOK at hm
+  rw [List.all_eq_true] at hm
+  have := hm j (List.mem_range.mpr hj)
+  simpa using this
+
 theorem exact_of_moments {K : Type} [Field K] [CharZero K]
     (st : Stencil) (p : Nat) (hm : momentsOK st p = true)
     (q : Polynomial K) (hq : q.natDegree ≤ p) (x h : K) (hh : h ≠ 0) :
     evalSt st (fun k => q.eval (x + (k : K) * h)) * h⁻¹ = q.derivative.eval x := by
-  sorry
+  have hdeg : (taylor x q).natDegree < p + 1 := by
+    rw [natDegree_taylor]; omega
+  have hexp : ∀ k : Int, q.eval (x + (k : K) * h)
+      = ∑ j ∈ Finset.range (p + 1), (taylor x q).coeff j * ((k : K) * h) ^ j := by
+    intro k
+    have h1 : q.eval (x + (k : K) * h) = (taylor x q).eval ((k : K) * h) := by
+      rw [taylor_eval, add_comm]
+    rw [h1, eval_eq_sum_range' hdeg]
+  have hfun : (fun k : Int => q.eval (x + (k : K) * h))
+      = fun k : Int => ∑ j ∈ Finset.range (p + 1), (taylor x q).coeff j * ((k : K) * h) ^ j :=
+    funext hexp
+  rw [hfun, evalSt_poly]
+  have hterm : ∀ j ∈ Finset.range (p + 1),
+      (taylor x q).coeff j * h ^ j * ((moment st j : ℚ) : K)
+        = if j = 1 then (taylor x q).coeff 1 * h else 0 := by
+    intro j hj
+    rw [moments_of_ok st p hm j (Finset.mem_range.mp hj)]
+    split_ifs with h1
+    · subst h1; simp
+    · simp
+  rw [Finset.sum_congr rfl hterm]
+  by_cases hp : 1 < p + 1
+  · rw [Finset.sum_ite_eq' (Finset.range (p + 1)) 1, if_pos (Finset.mem_range.mpr hp)]
+    rw [taylor_coeff_one]
+    field_simp
+  · have hp0 : p = 0 := by omega
+    subst hp0
+    have : q.natDegree = 0 := by omega
+    have hd : derivative q = 0 := derivative_of_natDegree_zero this
+    simp [hd]
 
 end AurelVerif.StencilLemmas
